@@ -10,6 +10,15 @@ root-to-leaf path (otherwise the two occurrences are perfectly correlated in the
 independent in the game — known finding F16), the expected regret accumulation of the sampled
 traversal at every `(infoset, action)` equals the accumulation of the unsampled traversal, i.e.
 the exact instantaneous counterfactual regret.
+
+Proof outline (`Cfr.Unb`): `expectDraws` is linear and the draw of one infoset can be integrated
+first (`expectDraws_pull`, Fubini for the finite product); `pm` is a pure mirror of `vrec` (draws as
+a function, no cache, no accumulators) that `vrec` agrees with from any cache consistent with the
+draws (`vrec_pm`); a subtree only reads the draws of its own chance infosets (`pm_congr`); the value
+ignores the chance reach and the regret deltas are linear in it (`pm_scale`); induction on the tree
+(`unb_pm`).  No validity of the profile is needed.  Closed examples over `ℚ` at the end: a game
+where both sides are `23/10`, and a well-formed game repeating a chance infoset on a path where the
+expectation is `1/4` against the exact `1/8`.
 -/
 set_option linter.unusedSectionVars false
 namespace Cfr
@@ -47,6 +56,592 @@ def sampledCtx (g : Game α) (strat : Bool → Nat → List α) (pass : Nat) (k 
 def fullCtx (g : Game α) (strat : Bool → Nat → List α) (pass : Nat) : VCtx α :=
   ⟨g.chance, false, strat, fun _ _ _ _ => 0, pass⟩
 
+
+/-! Everything up to the two theorems is internal to their proofs and lives in `Cfr.Unb`. -/
+namespace Unb
+
+/-- overwrite one draw -/
+def upd (k : Draws) (x j : Nat) : Draws := fun y => if y = x then j else k y
+
+theorem upd_same (k : Draws) (x j : Nat) : upd k x j x = j := by simp [upd]
+theorem upd_upd (k : Draws) (x j j' : Nat) : upd (upd k x j') x j = upd k x j := by
+  funext y; simp only [upd]; split_ifs <;> rfl
+theorem upd_comm (k : Draws) (x y j j' : Nat) (h : x ≠ y) :
+    upd (upd k x j) y j' = upd (upd k y j') x j := by
+  funext z; simp only [upd]; split_ifs with h1 h2 <;> first | rfl | omega
+
+/-! ## `expectOne` -/
+
+theorem expectOne_nil (f : Nat → α) : expectOne ([] : List α) f = 0 := by simp [expectOne]
+
+theorem expectOne_cons (p : α) (ps : List α) (f : Nat → α) :
+    expectOne (p :: ps) f = p * f 0 + expectOne ps (fun j => f (j + 1)) := by
+  simp [expectOne, List.range_succ_eq_map, List.map_map, Function.comp_def]
+
+theorem expectOne_congr (ps : List α) (f g : Nat → α) (h : ∀ j, j < ps.length → f j = g j) :
+    expectOne ps f = expectOne ps g := by
+  induction ps generalizing f g with
+  | nil => simp [expectOne_nil]
+  | cons p ps ih =>
+    rw [expectOne_cons, expectOne_cons, h 0 (by simp), ih _ _ (fun j hj => h (j + 1) (by simpa using hj))]
+
+theorem expectOne_add (ps : List α) (f g : Nat → α) :
+    expectOne ps (fun j => f j + g j) = expectOne ps f + expectOne ps g := by
+  induction ps generalizing f g with
+  | nil => simp [expectOne_nil]
+  | cons p ps ih => simp only [expectOne_cons, ih]; ring
+
+theorem expectOne_mul_left (ps : List α) (c : α) (f : Nat → α) :
+    expectOne ps (fun j => c * f j) = c * expectOne ps f := by
+  induction ps generalizing f with
+  | nil => simp [expectOne_nil]
+  | cons p ps ih => simp only [expectOne_cons, ih]; ring
+
+theorem expectOne_const (ps : List α) (c : α) : expectOne ps (fun _ => c) = ps.sum * c := by
+  induction ps with
+  | nil => simp [expectOne_nil]
+  | cons p ps ih => simp only [expectOne_cons, ih, List.sum_cons]; ring
+
+theorem expectOne_comm (ps qs : List α) (g : Nat → Nat → α) :
+    expectOne ps (fun a => expectOne qs (fun b => g a b))
+      = expectOne qs (fun b => expectOne ps (fun a => g a b)) := by
+  induction ps generalizing g with
+  | nil => simp [expectOne_nil, expectOne_const]
+  | cons p ps ih =>
+    simp only [expectOne_cons, ih, expectOne_add, expectOne_mul_left]
+
+/-! ## `expectDraws` -/
+
+theorem expectDraws_congr (ch : List (List α)) (i : Nat) (k : Draws) (f g : Draws → α)
+    (h : ∀ k, f k = g k) : expectDraws ch i k f = expectDraws ch i k g := by
+  rw [show f = g from funext h]
+
+theorem expectDraws_add (ch : List (List α)) (i : Nat) (k : Draws) (f g : Draws → α) :
+    expectDraws ch i k (fun x => f x + g x) = expectDraws ch i k f + expectDraws ch i k g := by
+  induction ch generalizing i k with
+  | nil => rfl
+  | cons ps ch ih => simp only [expectDraws, ih, expectOne_add]
+
+theorem expectDraws_mul_left (ch : List (List α)) (i : Nat) (k : Draws) (c : α) (f : Draws → α) :
+    expectDraws ch i k (fun x => c * f x) = c * expectDraws ch i k f := by
+  induction ch generalizing i k with
+  | nil => rfl
+  | cons ps ch ih => simp only [expectDraws, ih, expectOne_mul_left]
+
+theorem expectDraws_const (ch : List (List α)) (h : ∀ ps ∈ ch, ps.sum = 1) (i : Nat) (k : Draws)
+    (c : α) : expectDraws ch i k (fun _ => c) = c := by
+  induction ch generalizing i k with
+  | nil => rfl
+  | cons ps ch ih =>
+    simp only [expectDraws]
+    rw [expectOne_congr _ _ (fun _ => c) (fun j _ => ih (fun q hq => h q (List.mem_cons_of_mem _ hq)) _ _),
+      expectOne_const, h ps List.mem_cons_self, one_mul]
+
+/-- a draw outside the range being integrated can be fixed before or after -/
+theorem expectDraws_upd_lt (ch : List (List α)) (s : Nat) (k : Draws) (x j : Nat) (hx : x < s)
+    (f : Draws → α) :
+    expectDraws ch s k (fun k' => f (upd k' x j)) = expectDraws ch s (upd k x j) f := by
+  induction ch generalizing s k with
+  | nil => rfl
+  | cons ps ch ih =>
+    simp only [expectDraws]
+    apply expectOne_congr
+    intro j' _
+    refine (ih (s + 1) (upd k s j') (by omega)).trans ?_
+    congr 1
+    funext z
+    simp only [upd]
+    split_ifs <;> first | rfl | omega
+
+/-- Fubini: the draw of one infoset can be integrated first -/
+theorem expectDraws_pull (ch : List (List α)) (s : Nat) (k : Draws) (t : Nat) (ps : List α)
+    (ht : ch[t]? = some ps) (h1 : ps.sum = 1) (f : Draws → α) :
+    expectDraws ch s k f
+      = expectOne ps (fun j => expectDraws ch s k (fun k' => f (upd k' (s + t) j))) := by
+  induction ch generalizing s k t with
+  | nil => simp at ht
+  | cons q ch ih =>
+    cases t with
+    | zero =>
+      simp only [List.getElem?_cons_zero, Option.some.injEq] at ht
+      subst ht
+      simp only [expectDraws, Nat.add_zero]
+      have : ∀ j j', expectDraws ch (s + 1) (fun x => if x = s then j' else k x)
+            (fun k' => f (upd k' s j))
+          = expectDraws ch (s + 1) (fun x => if x = s then j else k x) f := by
+        intro j j'
+        rw [expectDraws_upd_lt ch (s + 1) _ s j (by omega) f]
+        congr 1
+        funext z
+        simp only [upd]
+        split_ifs <;> rfl
+      simp only [this, expectOne_const, h1, one_mul]
+    | succ t =>
+      simp only [List.getElem?_cons_succ] at ht
+      simp only [expectDraws]
+      rw [expectOne_comm]
+      apply expectOne_congr
+      intro j' _
+      rw [ih (s + 1) _ t ht]
+      simp only [show s + 1 + t = s + (t + 1) by omega]
+
+
+/-! ## a pure mirror of the traversal: draws given as a function, no cache, no accumulators -/
+
+mutual
+def pm (ch : List (List α)) (smp : Bool) (strat : Bool → Nat → List α) (k : Draws) :
+    Node α → α → α → α → α × List (Eff α)
+  | .term p, _, _, _ => (p, [])
+  | .chance i ks, pc, p1, p2 =>
+    if smp then pmNth ch smp strat k ks (k i) pc p1 p2
+    else pmCh ch smp strat k (ch.getD i []) ks pc p1 p2
+  | .player one i ks, pc, p1, p2 =>
+    let r := pmActs ch smp strat k one i (if one then pc * p2 else -p1 * pc) (strat one i) ks pc p1 p2 0
+    (r.1, stratEffs one i (if one then p1 else p2) (strat one i) 0 ++ r.2.2
+      ++ subEffs one i r.2.1 (strat one i).length)
+def pmNth (ch : List (List α)) (smp : Bool) (strat : Bool → Nat → List α) (k : Draws) :
+    List (Node α) → Nat → α → α → α → α × List (Eff α)
+  | [], _, _, _, _ => (0, [])
+  | n :: _, 0, pc, p1, p2 => pm ch smp strat k n pc p1 p2
+  | _ :: ks, j + 1, pc, p1, p2 => pmNth ch smp strat k ks j pc p1 p2
+def pmCh (ch : List (List α)) (smp : Bool) (strat : Bool → Nat → List α) (k : Draws) :
+    List α → List (Node α) → α → α → α → α × List (Eff α)
+  | p :: ps, n :: ks, pc, p1, p2 =>
+    let r := pm ch smp strat k n (pc * p) p1 p2
+    let r' := pmCh ch smp strat k ps ks pc p1 p2
+    (p * r.1 + r'.1, r.2 ++ r'.2)
+  | _, _, _, _, _ => (0, [])
+def pmActs (ch : List (List α)) (smp : Bool) (strat : Bool → Nat → List α) (k : Draws)
+    (one : Bool) (i : Nat) (mult : α) :
+    List α → List (Node α) → α → α → α → Nat → α × α × List (Eff α)
+  | s :: σ, n :: ks, pc, p1, p2, a =>
+    let r := if one then pm ch smp strat k n pc (p1 * s) p2 else pm ch smp strat k n pc p1 (p2 * s)
+    let r' := pmActs ch smp strat k one i mult σ ks pc p1 p2 (a + 1)
+    (s * r.1 + r'.1, r.1 * mult * s + r'.2.1, r.2 ++ ⟨one, i, .regret, a, r.1 * mult⟩ :: r'.2.2)
+  | _, _, _, _, _, _ => (0, 0, [])
+end
+
+theorem pmCh_nil_right (ch : List (List α)) (smp : Bool) (strat : Bool → Nat → List α) (k : Draws)
+    (ps : List α) (pc p1 p2 : α) : pmCh ch smp strat k ps [] pc p1 p2 = (0, []) := by
+  cases ps <;> simp [pmCh]
+theorem pmActs_nil_right (ch : List (List α)) (smp : Bool) (strat : Bool → Nat → List α) (k : Draws)
+    (one : Bool) (i : Nat) (mult : α) (σ : List α) (pc p1 p2 : α) (a : Nat) :
+    pmActs ch smp strat k one i mult σ [] pc p1 p2 a = (0, 0, []) := by
+  cases σ <;> simp [pmActs]
+
+/-- every cached sample is the draw `k` -/
+def ConsK (k : Draws) (d : DrawSt α) : Prop := ∀ i v, assocGet d.chance i = some v → v = k i
+
+theorem ConsK_empty (k : Draws) : ConsK k ({} : DrawSt α) := by
+  intro i v h; simp [assocGet] at h
+
+/-- in sampled mode the oracle answers `k` -/
+def CtxK (c : VCtx α) (k : Draws) : Prop := c.sampled = true → ∀ i ps, c.draw 0 i c.pass ps = k i
+
+theorem sampleChance_consK (c : VCtx α) (k : Draws) (hc : CtxK c k) (hs : c.sampled = true)
+    (ps : List α) (i : Nat) (d : DrawSt α) (hd : ConsK k d) :
+    (sampleChance c.draw c.pass ps i d).1 = k i ∧ ConsK k (sampleChance c.draw c.pass ps i d).2 := by
+  cases hg : assocGet d.chance i with
+  | some v => simp only [sampleChance, hg]; exact ⟨hd i v hg, hd⟩
+  | none =>
+    simp only [sampleChance, hg]
+    refine ⟨hc hs i ps, ?_⟩
+    intro j v hj
+    simp only [assocGet, List.find?_cons] at hj
+    by_cases hij : i = j
+    · subst hij; simp at hj; rw [← hj]; exact hc hs i ps
+    · have : (i == j) = false := by simpa using hij
+      simp only [this] at hj
+      exact hd j v hj
+
+mutual
+theorem vrec_pm (c : VCtx α) (k : Draws) (hc : CtxK c k) :
+    ∀ (n : Node α) (pc p1 p2 : α) (d : DrawSt α), ConsK k d →
+      (vrec c n pc p1 p2 d).1 = (pm c.ch c.sampled c.strat k n pc p1 p2).1 ∧
+      (vrec c n pc p1 p2 d).2.1 = (pm c.ch c.sampled c.strat k n pc p1 p2).2 ∧
+      ConsK k (vrec c n pc p1 p2 d).2.2
+  | .term p, pc, p1, p2, d, hd => by simp [vrec_term, pm, hd]
+  | .chance i ks, pc, p1, p2, d, hd => by
+    cases hs : c.sampled with
+    | true =>
+      obtain ⟨h1, h2⟩ := sampleChance_consK c k hc hs (c.ch.getD i []) i d hd
+      simp only [vrec, pm, hs, if_true]
+      rw [h1]
+      have := vrecNth_pm c k hc ks (k i) pc p1 p2 _ h2
+      rw [hs] at this
+      exact this
+    | false =>
+      rw [vrec_chance c hs]
+      simp only [pm, Bool.false_eq_true, if_false]
+      have := vrecChance_pm c k hc (c.ch.getD i []) ks pc p1 p2 d 0 hd
+      rw [hs] at this
+      simpa using this
+  | .player one i ks, pc, p1, p2, d, hd => by
+    rw [vrec_player]
+    obtain ⟨h1, h2, h3, h4⟩ := vrecActs_pm c k hc one i (if one then pc * p2 else -p1 * pc)
+      (c.strat one i) ks pc p1 p2 d 0 0 0 hd
+    simp only [pm]
+    refine ⟨?_, ?_, h4⟩
+    · rw [h1, zero_add]
+    · rw [h2, h3, zero_add]
+theorem vrecNth_pm (c : VCtx α) (k : Draws) (hc : CtxK c k) :
+    ∀ (ks : List (Node α)) (j : Nat) (pc p1 p2 : α) (d : DrawSt α), ConsK k d →
+      (vrecNth c ks j pc p1 p2 d).1 = (pmNth c.ch c.sampled c.strat k ks j pc p1 p2).1 ∧
+      (vrecNth c ks j pc p1 p2 d).2.1 = (pmNth c.ch c.sampled c.strat k ks j pc p1 p2).2 ∧
+      ConsK k (vrecNth c ks j pc p1 p2 d).2.2
+  | [], _, _, _, _, d, hd => by simp [vrecNth, pmNth, hd]
+  | n :: _, 0, pc, p1, p2, d, hd => by
+    simp only [vrecNth, pmNth]; exact vrec_pm c k hc n pc p1 p2 d hd
+  | _ :: ks, j + 1, pc, p1, p2, d, hd => by
+    simp only [vrecNth, pmNth]; exact vrecNth_pm c k hc ks j pc p1 p2 d hd
+theorem vrecChance_pm (c : VCtx α) (k : Draws) (hc : CtxK c k) :
+    ∀ (ps : List α) (ks : List (Node α)) (pc p1 p2 : α) (d : DrawSt α) (acc : α), ConsK k d →
+      (vrecChance c ps ks pc p1 p2 d acc).1
+        = acc + (pmCh c.ch c.sampled c.strat k ps ks pc p1 p2).1 ∧
+      (vrecChance c ps ks pc p1 p2 d acc).2.1 = (pmCh c.ch c.sampled c.strat k ps ks pc p1 p2).2 ∧
+      ConsK k (vrecChance c ps ks pc p1 p2 d acc).2.2
+  | p :: ps, n :: ks, pc, p1, p2, d, acc, hd => by
+    rw [vrecChance_cons]
+    obtain ⟨h1, h2, h3⟩ := vrec_pm c k hc n (pc * p) p1 p2 d hd
+    obtain ⟨g1, g2, g3⟩ := vrecChance_pm c k hc ps ks pc p1 p2 (vrec c n (pc * p) p1 p2 d).2.2
+      (acc + p * (vrec c n (pc * p) p1 p2 d).1) h3
+    simp only [pmCh]
+    refine ⟨?_, ?_, g3⟩
+    · rw [g1, h1]; ring
+    · rw [g2, h2]
+  | [], _, _, _, _, d, acc, hd => by simp [vrecChance, pmCh, hd]
+  | _ :: _, [], _, _, _, d, acc, hd => by simp [vrecChance, pmCh, hd]
+theorem vrecActs_pm (c : VCtx α) (k : Draws) (hc : CtxK c k) (one : Bool) (i : Nat) (mult : α) :
+    ∀ (σ : List α) (ks : List (Node α)) (pc p1 p2 : α) (d : DrawSt α) (a : Nat) (eo ex : α),
+      ConsK k d →
+      (vrecActs c one i mult σ ks pc p1 p2 d a eo ex).1
+        = eo + (pmActs c.ch c.sampled c.strat k one i mult σ ks pc p1 p2 a).1 ∧
+      (vrecActs c one i mult σ ks pc p1 p2 d a eo ex).2.1
+        = ex + (pmActs c.ch c.sampled c.strat k one i mult σ ks pc p1 p2 a).2.1 ∧
+      (vrecActs c one i mult σ ks pc p1 p2 d a eo ex).2.2.1
+        = (pmActs c.ch c.sampled c.strat k one i mult σ ks pc p1 p2 a).2.2 ∧
+      ConsK k (vrecActs c one i mult σ ks pc p1 p2 d a eo ex).2.2.2
+  | s :: σ, n :: ks, pc, p1, p2, d, a, eo, ex, hd => by
+    rw [vrecActs_cons]
+    have hr : (if one = true then vrec c n pc (p1 * s) p2 d else vrec c n pc p1 (p2 * s) d).1
+          = (if one = true then pm c.ch c.sampled c.strat k n pc (p1 * s) p2
+              else pm c.ch c.sampled c.strat k n pc p1 (p2 * s)).1 ∧
+        (if one = true then vrec c n pc (p1 * s) p2 d else vrec c n pc p1 (p2 * s) d).2.1
+          = (if one = true then pm c.ch c.sampled c.strat k n pc (p1 * s) p2
+              else pm c.ch c.sampled c.strat k n pc p1 (p2 * s)).2 ∧
+        ConsK k (if one = true then vrec c n pc (p1 * s) p2 d else vrec c n pc p1 (p2 * s) d).2.2 := by
+      cases one
+      · simpa using vrec_pm c k hc n pc p1 (p2 * s) d hd
+      · simpa using vrec_pm c k hc n pc (p1 * s) p2 d hd
+    obtain ⟨h1, h2, h3⟩ := hr
+    obtain ⟨g1, g2, g3, g4⟩ := vrecActs_pm c k hc one i mult σ ks pc p1 p2 _ (a + 1)
+      (eo + s * (if one = true then vrec c n pc (p1 * s) p2 d else vrec c n pc p1 (p2 * s) d).1)
+      (ex + (if one = true then vrec c n pc (p1 * s) p2 d else vrec c n pc p1 (p2 * s) d).1 * mult * s)
+      h3
+    simp only [pmActs]
+    refine ⟨?_, ?_, ?_, g4⟩
+    · rw [g1, h1]; ring
+    · rw [g2, h1]; ring
+    · rw [g3, h1, h2]
+  | [], _, _, _, _, d, _, eo, ex, hd => by simp [vrecActs, pmActs, hd]
+  | _ :: _, [], _, _, _, d, _, eo, ex, hd => by simp [vrecActs, pmActs, hd]
+end
+
+
+theorem expectDraws_zero (ch : List (List α)) (i : Nat) (k : Draws) :
+    expectDraws ch i k (fun _ => (0 : α)) = 0 := by
+  have := expectDraws_mul_left ch i k 0 (fun _ => (0 : α))
+  simpa using this
+
+theorem expectDraws_neg (ch : List (List α)) (i : Nat) (k : Draws) (f : Draws → α) :
+    expectDraws ch i k (fun x => - f x) = - expectDraws ch i k f := by
+  have := expectDraws_mul_left ch i k (-1) f
+  simpa using this
+
+theorem expectDraws_mul_right (ch : List (List α)) (i : Nat) (k : Draws) (c : α) (f : Draws → α) :
+    expectDraws ch i k (fun x => f x * c) = expectDraws ch i k f * c := by
+  rw [mul_comm, ← expectDraws_mul_left]
+  exact expectDraws_congr _ _ _ _ _ (fun _ => mul_comm _ _)
+
+/-- what a list of accumulations adds to the regret cell `(me, I, a)` -/
+def rg (me : Bool) (I a : Nat) (es : List (Eff α)) : α := effSum es me I Slot.regret a
+
+@[simp] theorem rg_nil (me : Bool) (I a : Nat) : rg me I a ([] : List (Eff α)) = 0 := by simp [rg]
+@[simp] theorem rg_append (me : Bool) (I a : Nat) (es es' : List (Eff α)) :
+    rg me I a (es ++ es') = rg me I a es + rg me I a es' := by simp [rg]
+theorem rg_cons (me : Bool) (I a : Nat) (one : Bool) (i b : Nat) (δ : α) (es : List (Eff α)) :
+    rg me I a (⟨one, i, .regret, b, δ⟩ :: es)
+      = (if one = me ∧ i = I ∧ b = a then δ else 0) + rg me I a es := by
+  simp [rg, effSum_cons]
+@[simp] theorem rg_stratEffs (me : Bool) (I a : Nat) (one : Bool) (i : Nat) (own : α) (σ : List α)
+    (b : Nat) : rg me I a (stratEffs one i own σ b) = 0 := effSum_stratEffs_regret one i own me I a σ b
+theorem rg_subEffs (me : Bool) (I a : Nat) (one : Bool) (i : Nat) (sub : α) (n : Nat) :
+    rg me I a (subEffs one i sub n) = if one = me ∧ i = I ∧ a < n then -sub else 0 :=
+  effSum_subEffs_regret one i sub n me I a
+
+section
+variable (ch : List (List α)) (smp : Bool) (strat : Bool → Nat → List α) (me : Bool) (I a : Nat)
+
+/-! ## the value ignores the chance reach, the regret deltas are linear in it -/
+
+mutual
+theorem pm_scale (k : Draws) (q : α) : ∀ (n : Node α) (pc p1 p2 : α),
+    (pm ch smp strat k n (pc * q) p1 p2).1 = (pm ch smp strat k n pc p1 p2).1 ∧
+    rg me I a (pm ch smp strat k n (pc * q) p1 p2).2 = q * rg me I a (pm ch smp strat k n pc p1 p2).2
+  | .term p, pc, p1, p2 => by simp [pm]
+  | .chance i ks, pc, p1, p2 => by
+    simp only [pm]
+    split_ifs
+    · exact pmNth_scale k q ks (k i) pc p1 p2
+    · exact pmCh_scale k q _ ks pc p1 p2
+  | .player one i ks, pc, p1, p2 => by
+    have hm : (if one then pc * q * p2 else -p1 * (pc * q))
+        = (if one then pc * p2 else -p1 * pc) * q := by cases one <;> simp <;> ring
+    obtain ⟨h1, h2, h3⟩ := pmActs_scale k q one i (if one then pc * p2 else -p1 * pc)
+      (strat one i) ks pc p1 p2 0
+    simp only [pm, hm, h1, h2, rg_append, h3, rg_stratEffs, rg_subEffs, zero_add, true_and]
+    split_ifs <;> ring
+theorem pmNth_scale (k : Draws) (q : α) : ∀ (ks : List (Node α)) (j : Nat) (pc p1 p2 : α),
+    (pmNth ch smp strat k ks j (pc * q) p1 p2).1 = (pmNth ch smp strat k ks j pc p1 p2).1 ∧
+    rg me I a (pmNth ch smp strat k ks j (pc * q) p1 p2).2
+      = q * rg me I a (pmNth ch smp strat k ks j pc p1 p2).2
+  | [], _, _, _, _ => by simp [pmNth]
+  | n :: _, 0, pc, p1, p2 => by simp only [pmNth]; exact pm_scale k q n pc p1 p2
+  | _ :: ks, j + 1, pc, p1, p2 => by simp only [pmNth]; exact pmNth_scale k q ks j pc p1 p2
+theorem pmCh_scale (k : Draws) (q : α) : ∀ (ps : List α) (ks : List (Node α)) (pc p1 p2 : α),
+    (pmCh ch smp strat k ps ks (pc * q) p1 p2).1 = (pmCh ch smp strat k ps ks pc p1 p2).1 ∧
+    rg me I a (pmCh ch smp strat k ps ks (pc * q) p1 p2).2
+      = q * rg me I a (pmCh ch smp strat k ps ks pc p1 p2).2
+  | p :: ps, n :: ks, pc, p1, p2 => by
+    obtain ⟨h1, h2⟩ := pm_scale k q n (pc * p) p1 p2
+    obtain ⟨g1, g2⟩ := pmCh_scale k q ps ks pc p1 p2
+    simp only [pmCh, rg_append, show pc * q * p = pc * p * q by ring, h1, h2, g1, g2, true_and]
+    ring
+  | [], _, _, _, _ => by simp [pmCh]
+  | _ :: _, [], _, _, _ => by simp [pmCh]
+theorem pmActs_scale (k : Draws) (q : α) (one : Bool) (i : Nat) (mult : α) :
+    ∀ (σ : List α) (ks : List (Node α)) (pc p1 p2 : α) (b : Nat),
+    (pmActs ch smp strat k one i (mult * q) σ ks (pc * q) p1 p2 b).1
+      = (pmActs ch smp strat k one i mult σ ks pc p1 p2 b).1 ∧
+    (pmActs ch smp strat k one i (mult * q) σ ks (pc * q) p1 p2 b).2.1
+      = q * (pmActs ch smp strat k one i mult σ ks pc p1 p2 b).2.1 ∧
+    rg me I a (pmActs ch smp strat k one i (mult * q) σ ks (pc * q) p1 p2 b).2.2
+      = q * rg me I a (pmActs ch smp strat k one i mult σ ks pc p1 p2 b).2.2
+  | s :: σ, n :: ks, pc, p1, p2, b => by
+    have hr : (if one = true then pm ch smp strat k n (pc * q) (p1 * s) p2
+            else pm ch smp strat k n (pc * q) p1 (p2 * s)).1
+          = (if one = true then pm ch smp strat k n pc (p1 * s) p2
+            else pm ch smp strat k n pc p1 (p2 * s)).1 ∧
+        rg me I a (if one = true then pm ch smp strat k n (pc * q) (p1 * s) p2
+            else pm ch smp strat k n (pc * q) p1 (p2 * s)).2
+          = q * rg me I a (if one = true then pm ch smp strat k n pc (p1 * s) p2
+            else pm ch smp strat k n pc p1 (p2 * s)).2 := by
+      cases one
+      · simpa using pm_scale k q n pc p1 (p2 * s)
+      · simpa using pm_scale k q n pc (p1 * s) p2
+    obtain ⟨h1, h2⟩ := hr
+    obtain ⟨g1, g2, g3⟩ := pmActs_scale k q one i mult σ ks pc p1 p2 (b + 1)
+    simp only [pmActs, rg_append, rg_cons, h1, h2, g1, g2, g3, true_and]
+    constructor
+    · ring
+    · split_ifs <;> ring
+  | [], _, _, _, _, _ => by simp [pmActs]
+  | _ :: _, [], _, _, _, _ => by simp [pmActs]
+end
+
+/-! ## a subtree only reads the draws of its own chance infosets -/
+
+mutual
+theorem pm_congr (k k' : Draws) : ∀ (n : Node α) (seen : List Nat) (pc p1 p2 : α),
+    NoChanceRepeat seen n → (∀ x, x ∉ seen → k x = k' x) →
+    pm ch smp strat k n pc p1 p2 = pm ch smp strat k' n pc p1 p2
+  | .term p, _, _, _, _, _, _ => by simp only [pm]
+  | .chance i ks, seen, pc, p1, p2, h, hk => by
+    obtain ⟨hi, hks⟩ := (by simpa [NoChanceRepeat] using h : i ∉ seen ∧ NoChanceRepeatL (i :: seen) ks)
+    have hk' : ∀ x, x ∉ i :: seen → k x = k' x := fun x hx => hk x (fun h => hx (List.mem_cons_of_mem _ h))
+    simp only [pm]
+    rw [hk i hi, pmNth_congr k k' ks (i :: seen) _ pc p1 p2 hks hk',
+      pmCh_congr k k' _ ks (i :: seen) pc p1 p2 hks hk']
+  | .player one i ks, seen, pc, p1, p2, h, hk => by
+    have hks : NoChanceRepeatL seen ks := by simpa [NoChanceRepeat] using h
+    simp only [pm]
+    rw [pmActs_congr k k' one i _ _ ks seen pc p1 p2 0 hks hk]
+theorem pmNth_congr (k k' : Draws) : ∀ (ks : List (Node α)) (seen : List Nat) (j : Nat) (pc p1 p2 : α),
+    NoChanceRepeatL seen ks → (∀ x, x ∉ seen → k x = k' x) →
+    pmNth ch smp strat k ks j pc p1 p2 = pmNth ch smp strat k' ks j pc p1 p2
+  | [], _, _, _, _, _, _, _ => by simp only [pmNth]
+  | n :: _, seen, 0, pc, p1, p2, h, hk => by
+    obtain ⟨h1, _⟩ := (by simpa [NoChanceRepeatL] using h :
+      NoChanceRepeat seen n ∧ NoChanceRepeatL seen _)
+    simp only [pmNth]; exact pm_congr k k' n seen pc p1 p2 h1 hk
+  | _ :: ks, seen, j + 1, pc, p1, p2, h, hk => by
+    obtain ⟨_, h2⟩ := (by simpa [NoChanceRepeatL] using h :
+      NoChanceRepeat seen _ ∧ NoChanceRepeatL seen ks)
+    simp only [pmNth]; exact pmNth_congr k k' ks seen j pc p1 p2 h2 hk
+theorem pmCh_congr (k k' : Draws) : ∀ (ps : List α) (ks : List (Node α)) (seen : List Nat)
+    (pc p1 p2 : α), NoChanceRepeatL seen ks → (∀ x, x ∉ seen → k x = k' x) →
+    pmCh ch smp strat k ps ks pc p1 p2 = pmCh ch smp strat k' ps ks pc p1 p2
+  | p :: ps, n :: ks, seen, pc, p1, p2, h, hk => by
+    obtain ⟨h1, h2⟩ := (by simpa [NoChanceRepeatL] using h :
+      NoChanceRepeat seen n ∧ NoChanceRepeatL seen ks)
+    simp only [pmCh]
+    rw [pm_congr k k' n seen _ p1 p2 h1 hk, pmCh_congr k k' ps ks seen pc p1 p2 h2 hk]
+  | [], _, _, _, _, _, _, _ => by simp only [pmCh]
+  | _ :: _, [], _, _, _, _, _, _ => by simp only [pmCh]
+theorem pmActs_congr (k k' : Draws) (one : Bool) (i : Nat) (mult : α) :
+    ∀ (σ : List α) (ks : List (Node α)) (seen : List Nat) (pc p1 p2 : α) (b : Nat),
+    NoChanceRepeatL seen ks → (∀ x, x ∉ seen → k x = k' x) →
+    pmActs ch smp strat k one i mult σ ks pc p1 p2 b = pmActs ch smp strat k' one i mult σ ks pc p1 p2 b
+  | s :: σ, n :: ks, seen, pc, p1, p2, b, h, hk => by
+    obtain ⟨h1, h2⟩ := (by simpa [NoChanceRepeatL] using h :
+      NoChanceRepeat seen n ∧ NoChanceRepeatL seen ks)
+    simp only [pmActs]
+    rw [pm_congr k k' n seen pc (p1 * s) p2 h1 hk, pm_congr k k' n seen pc p1 (p2 * s) h1 hk,
+      pmActs_congr k k' one i mult σ ks seen pc p1 p2 (b + 1) h2 hk]
+  | [], _, _, _, _, _, _, _, _ => by simp only [pmActs]
+  | _ :: _, [], _, _, _, _, _, _, _ => by simp only [pmActs]
+end
+
+/-- averaging the children of a chance node with the outcome probabilities is what the unsampled
+traversal does at that node -/
+theorem expectOne_pmNth (k : Draws) : ∀ (ps : List α) (ks : List (Node α)) (pc p1 p2 : α),
+    expectOne ps (fun j => (pmNth ch smp strat k ks j pc p1 p2).1)
+      = (pmCh ch smp strat k ps ks pc p1 p2).1 ∧
+    expectOne ps (fun j => rg me I a (pmNth ch smp strat k ks j pc p1 p2).2)
+      = rg me I a (pmCh ch smp strat k ps ks pc p1 p2).2
+  | [], _, _, _, _ => by simp [expectOne_nil, pmCh]
+  | _ :: _, [], _, _, _ => by simp [pmNth, pmCh, expectOne_const]
+  | p :: ps, n :: ks, pc, p1, p2 => by
+    obtain ⟨h1, h2⟩ := expectOne_pmNth k ps ks pc p1 p2
+    obtain ⟨g1, g2⟩ := pm_scale ch smp strat me I a k p n pc p1 p2
+    simp only [expectOne_cons, pmNth, pmCh, rg_append, h1, h2, g1, g2, true_and]
+
+end
+
+
+/-! ## the expectation of the sampled traversal is the unsampled traversal -/
+
+section
+variable (g : Game α) (hsum : ∀ ps ∈ g.chance, ps.sum = 1) (strat : Bool → Nat → List α)
+  (k0 : Draws) (me : Bool) (I a : Nat)
+include hsum
+
+mutual
+theorem unb_pm : ∀ (n : Node α) (seen : List Nat) (pc p1 p2 : α),
+    NodeOK g n → NoChanceRepeat seen n →
+    expectDraws g.chance 0 k0 (fun k => (pm g.chance true strat k n pc p1 p2).1)
+      = (pm g.chance false strat k0 n pc p1 p2).1 ∧
+    expectDraws g.chance 0 k0 (fun k => rg me I a (pm g.chance true strat k n pc p1 p2).2)
+      = rg me I a (pm g.chance false strat k0 n pc p1 p2).2
+  | .term p, _, _, _, _, _, _ => by
+    simp [pm, expectDraws_const _ hsum]
+  | .chance i ks, seen, pc, p1, p2, hok, hnr => by
+    obtain ⟨⟨ps, hps, _⟩, _, hoks⟩ := (by simpa [NodeOK] using hok :
+      (∃ ps, g.chance[i]? = some ps ∧ ps.length = ks.length) ∧ 2 ≤ ks.length ∧ NodeOKL g ks)
+    obtain ⟨hi, hnrs⟩ := (by simpa [NoChanceRepeat] using hnr :
+      i ∉ seen ∧ NoChanceRepeatL (i :: seen) ks)
+    have hps1 : ps.sum = 1 := hsum ps (List.mem_of_getElem? hps)
+    have hgd : g.chance.getD i [] = ps := by simp [List.getD_eq_getElem?_getD, hps]
+    obtain ⟨e1, e2⟩ := expectOne_pmNth g.chance false strat me I a k0 ps ks pc p1 p2
+    simp only [pm, if_true, Bool.false_eq_true, if_false, hgd]
+    rw [← e1, ← e2]
+    have hcg : ∀ (k : Draws) (j : Nat), pmNth g.chance true strat (upd k i j) ks j pc p1 p2
+        = pmNth g.chance true strat k ks j pc p1 p2 := fun k j =>
+      pmNth_congr g.chance true strat (upd k i j) k ks (i :: seen) j pc p1 p2 hnrs (fun x hx => by
+        have : x ≠ i := fun h => hx (h ▸ List.mem_cons_self)
+        simp [upd, this])
+    constructor
+    · rw [expectDraws_pull g.chance 0 k0 i ps hps hps1]
+      apply expectOne_congr; intro j _
+      simp only [Nat.zero_add, upd_same, hcg]
+      exact (unb_pmNth ks (i :: seen) j pc p1 p2 hoks hnrs).1
+    · rw [expectDraws_pull g.chance 0 k0 i ps hps hps1]
+      apply expectOne_congr; intro j _
+      simp only [Nat.zero_add, upd_same, hcg]
+      exact (unb_pmNth ks (i :: seen) j pc p1 p2 hoks hnrs).2
+  | .player one i ks, seen, pc, p1, p2, hok, hnr => by
+    obtain ⟨_, _, hoks⟩ := (by simpa [NodeOK] using hok :
+      (∃ e, (g.infos one)[i]? = some e ∧ e.actions.length = ks.length) ∧ 2 ≤ ks.length ∧ NodeOKL g ks)
+    have hnrs : NoChanceRepeatL seen ks := by simpa [NoChanceRepeat] using hnr
+    obtain ⟨h1, h2, h3⟩ := unb_pmActs one i (if one then pc * p2 else -p1 * pc) (strat one i) ks
+      seen pc p1 p2 0 hoks hnrs
+    simp only [pm, rg_append, rg_stratEffs, rg_subEffs, zero_add]
+    refine ⟨h1, ?_⟩
+    rw [expectDraws_add, h3]
+    congr 1
+    by_cases hc : one = me ∧ i = I ∧ a < (strat one i).length
+    · simp only [if_pos hc]; rw [expectDraws_neg, h2]
+    · simp only [if_neg hc]; exact expectDraws_zero _ _ _
+theorem unb_pmNth : ∀ (ks : List (Node α)) (seen : List Nat) (j : Nat) (pc p1 p2 : α),
+    NodeOKL g ks → NoChanceRepeatL seen ks →
+    expectDraws g.chance 0 k0 (fun k => (pmNth g.chance true strat k ks j pc p1 p2).1)
+      = (pmNth g.chance false strat k0 ks j pc p1 p2).1 ∧
+    expectDraws g.chance 0 k0 (fun k => rg me I a (pmNth g.chance true strat k ks j pc p1 p2).2)
+      = rg me I a (pmNth g.chance false strat k0 ks j pc p1 p2).2
+  | [], _, _, _, _, _, _, _ => by simp [pmNth, expectDraws_zero]
+  | n :: _, seen, 0, pc, p1, p2, hok, hnr => by
+    obtain ⟨h1, _⟩ := (by simpa [NodeOKL] using hok : NodeOK g n ∧ NodeOKL g _)
+    obtain ⟨g1, _⟩ := (by simpa [NoChanceRepeatL] using hnr :
+      NoChanceRepeat seen n ∧ NoChanceRepeatL seen _)
+    simp only [pmNth]; exact unb_pm n seen pc p1 p2 h1 g1
+  | _ :: ks, seen, j + 1, pc, p1, p2, hok, hnr => by
+    obtain ⟨_, h2⟩ := (by simpa [NodeOKL] using hok : NodeOK g _ ∧ NodeOKL g ks)
+    obtain ⟨_, g2⟩ := (by simpa [NoChanceRepeatL] using hnr :
+      NoChanceRepeat seen _ ∧ NoChanceRepeatL seen ks)
+    simp only [pmNth]; exact unb_pmNth ks seen j pc p1 p2 h2 g2
+theorem unb_pmActs (one : Bool) (i : Nat) (mult : α) :
+    ∀ (σ : List α) (ks : List (Node α)) (seen : List Nat) (pc p1 p2 : α) (b : Nat),
+    NodeOKL g ks → NoChanceRepeatL seen ks →
+    expectDraws g.chance 0 k0 (fun k => (pmActs g.chance true strat k one i mult σ ks pc p1 p2 b).1)
+      = (pmActs g.chance false strat k0 one i mult σ ks pc p1 p2 b).1 ∧
+    expectDraws g.chance 0 k0 (fun k => (pmActs g.chance true strat k one i mult σ ks pc p1 p2 b).2.1)
+      = (pmActs g.chance false strat k0 one i mult σ ks pc p1 p2 b).2.1 ∧
+    expectDraws g.chance 0 k0
+        (fun k => rg me I a (pmActs g.chance true strat k one i mult σ ks pc p1 p2 b).2.2)
+      = rg me I a (pmActs g.chance false strat k0 one i mult σ ks pc p1 p2 b).2.2
+  | s :: σ, n :: ks, seen, pc, p1, p2, b, hok, hnr => by
+    obtain ⟨h1, h2⟩ := (by simpa [NodeOKL] using hok : NodeOK g n ∧ NodeOKL g ks)
+    obtain ⟨g1, g2⟩ := (by simpa [NoChanceRepeatL] using hnr :
+      NoChanceRepeat seen n ∧ NoChanceRepeatL seen ks)
+    have hr : expectDraws g.chance 0 k0 (fun k =>
+            (if one = true then pm g.chance true strat k n pc (p1 * s) p2
+              else pm g.chance true strat k n pc p1 (p2 * s)).1)
+          = (if one = true then pm g.chance false strat k0 n pc (p1 * s) p2
+              else pm g.chance false strat k0 n pc p1 (p2 * s)).1 ∧
+        expectDraws g.chance 0 k0 (fun k =>
+            rg me I a (if one = true then pm g.chance true strat k n pc (p1 * s) p2
+              else pm g.chance true strat k n pc p1 (p2 * s)).2)
+          = rg me I a (if one = true then pm g.chance false strat k0 n pc (p1 * s) p2
+              else pm g.chance false strat k0 n pc p1 (p2 * s)).2 := by
+      cases one
+      · simpa using unb_pm n seen pc p1 (p2 * s) h1 g1
+      · simpa using unb_pm n seen pc (p1 * s) p2 h1 g1
+    obtain ⟨r1, r2⟩ := hr
+    obtain ⟨a1, a2, a3⟩ := unb_pmActs one i mult σ ks seen pc p1 p2 (b + 1) h2 g2
+    simp only [pmActs, rg_append, rg_cons]
+    refine ⟨?_, ?_, ?_⟩
+    · rw [expectDraws_add, expectDraws_mul_left, r1, a1]
+    · rw [expectDraws_add, expectDraws_mul_right, expectDraws_mul_right, r1, a2]
+    · rw [expectDraws_add, expectDraws_add, r2, a3]
+      congr 2
+      by_cases hc : one = me ∧ i = I ∧ b = a
+      · simp only [if_pos hc]; rw [expectDraws_mul_right, r1]
+      · simp only [if_neg hc]; exact expectDraws_zero _ _ _
+  | [], _, _, _, _, _, _, _, _ => by simp [pmActs, expectDraws_zero]
+  | _ :: _, [], _, _, _, _, _, _, _ => by simp [pmActs, expectDraws_zero]
+end
+
+end
+
+theorem ctxK_sampled (g : Game α) (strat : Bool → Nat → List α) (pass : Nat) (k : Draws) :
+    CtxK (sampledCtx g strat pass k) k := fun _ _ _ => rfl
+theorem ctxK_full (g : Game α) (strat : Bool → Nat → List α) (pass : Nat) (k : Draws) :
+    CtxK (fullCtx g strat pass) k := fun h => by simp [fullCtx] at h
+
+
+end Unb
+open Unb
+
 /-- **chance sampling is unbiased for the regrets**: for every well-formed game without a
 repeated chance infoset on a path, every strategy profile the traversal may read, every infoset
 and action, the expectation over the draws of one pass of what the sampled traversal adds to the
@@ -56,7 +651,15 @@ theorem sampled_pass_unbiased (g : Game α) (hg : GameWF g) (hnr : NoChanceRepea
     expectDraws g.chance 0 (fun _ => 0)
         (fun k => effSum (vrec (sampledCtx g strat pass k) g.root 1 1 1 {}).2.1 me I Slot.regret a)
       = effSum (vrec (fullCtx g strat pass) g.root 1 1 1 {}).2.1 me I Slot.regret a := by
-  sorry
+  have hs : ∀ k, (vrec (sampledCtx g strat pass k) g.root 1 1 1 {}).2.1
+      = (pm g.chance true strat k g.root 1 1 1).2 := fun k =>
+    (vrec_pm _ k (ctxK_sampled g strat pass k) g.root 1 1 1 {} (ConsK_empty k)).2.1
+  have hf : (vrec (fullCtx g strat pass) g.root 1 1 1 {}).2.1
+      = (pm g.chance false strat (fun _ => 0) g.root 1 1 1).2 :=
+    (vrec_pm _ _ (ctxK_full g strat pass _) g.root 1 1 1 {} (ConsK_empty _)).2.1
+  simp only [hs, hf]
+  exact (unb_pm g (fun ps h => (hg.chancePos ps h).2) strat (fun _ => 0) me I a g.root [] 1 1 1
+    hg.nodes hnr).2
 
 /-- the value returned by the sampled traversal is an unbiased estimate of the game value under
 the current strategies -/
@@ -65,6 +668,111 @@ theorem sampled_value_unbiased (g : Game α) (hg : GameWF g) (hnr : NoChanceRepe
     expectDraws g.chance 0 (fun _ => 0)
         (fun k => (vrec (sampledCtx g strat pass k) g.root 1 1 1 {}).1)
       = (vrec (fullCtx g strat pass) g.root 1 1 1 {}).1 := by
-  sorry
+  have hs : ∀ k, (vrec (sampledCtx g strat pass k) g.root 1 1 1 {}).1
+      = (pm g.chance true strat k g.root 1 1 1).1 := fun k =>
+    (vrec_pm _ k (ctxK_sampled g strat pass k) g.root 1 1 1 {} (ConsK_empty k)).1
+  have hf : (vrec (fullCtx g strat pass) g.root 1 1 1 {}).1
+      = (pm g.chance false strat (fun _ => 0) g.root 1 1 1).1 :=
+    (vrec_pm _ _ (ctxK_full g strat pass _) g.root 1 1 1 {} (ConsK_empty _)).1
+  simp only [hs, hf]
+  exact (unb_pm g (fun ps h => (hg.chancePos ps h).2) strat (fun _ => 0) true 0 0 g.root [] 1 1 1
+    hg.nodes hnr).1
+
+namespace Unb
+
+/-! ## non-vacuity, and why `NoChanceRepeat` is assumed (closed examples over `ℚ`) -/
+
+section Examples
+
+/-- a chance root (infoset `0`, odds `1/3 : 2/3`) over two subtrees that both contain the second
+chance infoset `1` (odds `1/4 : 3/4`) and a decision node of player one's infoset `0` -/
+def ubGame : Game ℚ where
+  chance := [[1/3, 2/3], [1/4, 3/4]]
+  p1 := [⟨0, [0, 1], none⟩]
+  p2 := []
+  s1 := []
+  s2 := []
+  root := .chance 0 [
+    .player true 0 [.chance 1 [.term 1, .term 3], .term 0],
+    .chance 1 [.term 2, .player true 0 [.term 4, .term (-2)]]]
+
+def ubStrat : Bool → Nat → List ℚ := fun _ _ => [2/5, 3/5]
+
+theorem ubGame_wf : GameWF ubGame where
+  chancePos := by decide +kernel
+  nodes := by simp [NodeOK, NodeOKL, ubGame, Game.infos]
+  recall := fun me => ⟨fun _ => [], by cases me <;> simp [PR, PRL, PRD, ubGame], by simp⟩
+  tables1 := ⟨by decide, by decide, by decide, by decide⟩
+  tables2 := ⟨by decide, by decide, by decide, by decide⟩
+  actsTwo := by intro me; cases me <;> decide
+
+theorem ubGame_nr : NoChanceRepeat [] ubGame.root := by
+  simp [NoChanceRepeat, NoChanceRepeatL, ubGame]
+
+/-- the theorems apply to this game -/
+example (k : Nat) (me : Bool) (I a : Nat) :=
+  sampled_pass_unbiased ubGame ubGame_wf ubGame_nr ubStrat k me I a
+
+/-- both sides of `sampled_pass_unbiased` are `1/3·(5/2 - 1) + 2/3·3/4·(4 - 2/5) = 23/10` -/
+example :
+    expectDraws ubGame.chance 0 (fun _ => 0) (fun k =>
+      effSum (vrec (sampledCtx ubGame ubStrat 0 k) ubGame.root 1 1 1 {}).2.1 true 0 Slot.regret 0)
+      = 23/10 ∧
+    effSum (vrec (fullCtx ubGame ubStrat 0) ubGame.root 1 1 1 {}).2.1 true 0 Slot.regret 0 = 23/10 := by
+  decide +kernel
+
+/-- both sides of `sampled_value_unbiased` -/
+example :
+    expectDraws ubGame.chance 0 (fun _ => 0) (fun k =>
+      (vrec (sampledCtx ubGame ubStrat 0 k) ubGame.root 1 1 1 {}).1) = 13/15 ∧
+    (vrec (fullCtx ubGame ubStrat 0) ubGame.root 1 1 1 {}).1 = 13/15 := by
+  decide +kernel
+
+/-- a single sampled pass is *not* the unsampled one: the statement is about the expectation -/
+example : effSum (vrec (sampledCtx ubGame ubStrat 0 (fun _ => 0)) ubGame.root 1 1 1 {}).2.1
+    true 0 Slot.regret 0 ≠ 23/10 := by
+  decide +kernel
+
+/-- a well-formed game in which the chance infoset `0` (a fair coin) occurs twice on a path
+(finding F16): the sampled pass reuses the cached outcome at the second occurrence -/
+def ubBad : Game ℚ where
+  chance := [[1/2, 1/2]]
+  p1 := [⟨0, [0, 1], none⟩]
+  p2 := []
+  s1 := []
+  s2 := []
+  root := .chance 0 [.chance 0 [.player true 0 [.term 1, .term 0], .term 0], .term 0]
+
+def ubBadStrat : Bool → Nat → List ℚ := fun _ _ => [1/2, 1/2]
+
+theorem ubBad_wf : GameWF ubBad where
+  chancePos := by decide +kernel
+  nodes := by simp [NodeOK, NodeOKL, ubBad, Game.infos]
+  recall := fun me => ⟨fun _ => [], by cases me <;> simp [PR, PRL, PRD, ubBad], by simp⟩
+  tables1 := ⟨by decide, by decide, by decide, by decide⟩
+  tables2 := ⟨by decide, by decide, by decide, by decide⟩
+  actsTwo := by intro me; cases me <;> decide
+
+example : ¬ NoChanceRepeat [] ubBad.root := by
+  simp [NoChanceRepeat, NoChanceRepeatL, ubBad]
+
+/-- without `NoChanceRepeat` the regret estimate is biased: `1/4` expected, `1/8` exact -/
+example :
+    expectDraws ubBad.chance 0 (fun _ => 0) (fun k =>
+      effSum (vrec (sampledCtx ubBad ubBadStrat 0 k) ubBad.root 1 1 1 {}).2.1 true 0 Slot.regret 0)
+      = 1/4 ∧
+    effSum (vrec (fullCtx ubBad ubBadStrat 0) ubBad.root 1 1 1 {}).2.1 true 0 Slot.regret 0 = 1/8 := by
+  decide +kernel
+
+/-- … and so is the value estimate: `1/4` expected, `1/8` exact -/
+example :
+    expectDraws ubBad.chance 0 (fun _ => 0) (fun k =>
+      (vrec (sampledCtx ubBad ubBadStrat 0 k) ubBad.root 1 1 1 {}).1) = 1/4 ∧
+    (vrec (fullCtx ubBad ubBadStrat 0) ubBad.root 1 1 1 {}).1 = 1/8 := by
+  decide +kernel
+
+end Examples
+
+end Unb
 
 end Cfr
